@@ -18,6 +18,13 @@
 (*   "before" : the index sticks to the element LEFT of the gap -- it      *)
 (*              designates the position directly after its anchor; at gap  *)
 (*              0 it designates the start of the collection.               *)
+(*                                                                         *)
+(* Text elements are UTF-16 code units.  A character outside the BMP is    *)
+(* two elements (Yata.tla, "Characters") but ONE place to stick to: gaps   *)
+(* are character boundaries, and an anchor on either element of a          *)
+(* surrogate pair stands for the character -- "after" designates the gap   *)
+(* directly before its first element, "before" the gap directly after its  *)
+(* last element.  Indexes and expected positions stay unit indexes.        *)
 (***************************************************************************)
 EXTENDS Yata
 
@@ -47,9 +54,10 @@ ExpectedIndex(E, R, h) ==
   IF h.anchor = None
   THEN (IF h.assoc = "after" THEN Len(Visible(E, R, h.cont)) ELSE 0)
   ELSE LET s == Lst(R.lst, h.cont)
-           p == IndexOf(s, h.anchor)
+           a == IF h.assoc = "after" THEN CharFirst(E, h.anchor) ELSE CharLast(E, h.anchor)
+           p == IndexOf(s, a)
            n == VisibleBefore(E, R, s, p)
-       IN IF h.anchor \in R.dead \/ ~Countable(E, h.anchor) \/ h.assoc = "after" THEN n ELSE n + 1
+       IN IF a \in R.dead \/ ~Countable(E, a) \/ h.assoc = "after" THEN n ELSE n + 1
 
 (* side of the designated gap on which a listed element x # anchor lies: TRUE = left *)
 LeftOfGap(R, h, x) ==
@@ -71,7 +79,11 @@ C14_AnchorRight(E, R, h, i) ==
 
 (* implementation-level rule (drift when it differs but C14_AnchorRight holds, e.g. an anchor  *)
 (* on a tombstone inside the gap)                                                             *)
-AnchorByRule(E, R, h, i) == h.anchor = AnchorFor(Visible(E, R, h.cont), i, h.assoc)
+AnchorByRule(E, R, h, i) == CharFirst(E, h.anchor) = CharFirst(E, AnchorFor(Visible(E, R, h.cont), i, h.assoc))
+(* implementation-level: which element of a surrogate pair carries a left-associated index.  The element next to  *)
+(* the gap is the pair's LAST one (AnchorFor); a replica counting in another offset unit -- or a Yjs peer -- that  *)
+(* resolves "directly after the anchoring element" lands inside the pair when the FIRST one was stored.           *)
+AnchorOnFirstHalf(E, h) == h.anchor # None /\ h.assoc = "before" /\ IsHighHalf(E, h.anchor)
 
 (* Every gap 0..n of a collection with n visible elements can be given a sticky index, with    *)
 (* one exception: IndexedSequence::sticky_index(n, Assoc::After) -- no element right of the    *)
